@@ -100,7 +100,9 @@ def check_text(text, optname, case, tmpdir):
 
     def one_pass(rnd):
         nonlocal ref
-        for bom in (False, True):
+        # a text that already starts with U+FEFF is only compared route against route as it is (one more mark in front
+        # would make it a different, malformed document)
+        for bom in ((False,) if text.startswith(BOM) else (False, True)):
             t = (BOM + text) if bom else text
             for name, thunk in routes(t, tmpdir, opts, f'{int(bom)}').items():
                 obs, db = observe(thunk)
@@ -267,6 +269,7 @@ def shard(ctx: Ctx):
         def bad_cases(draw):
             s_, text0, f = draw(c07.cases(strict_features(), sizes))[:3]
             text = render(f[1], '\n', True) if f else text0
+            text = BOM * draw(st.sampled_from([0, 0, 0, 0, 1, 2, 3])) + text      # the same text, marks and all, on every route
             return s_, text, 'props' if s_.allow_properties else 'default'
 
         hyp_run(ctx, 'routes-malformed', bad_cases(), lambda c: evaluate(c, ctx, tmpdir), 15 if quick else 200)
